@@ -108,6 +108,8 @@ def chunk3 : List Nat → List (List Nat)
 
 /-- `_codons[_to_number(codon)]` for one codon. -/
 def lookupCodon (t : CodonTable) (c : List Nat) : Except Err Nat :=
+  -- `_to_number` (repaired code) refuses nucleotide codes outside the radix before forming the number
+  if c.any (fun d => decide (4 ≤ d)) then .error .alphabetError else
   match codonNumber c with
   | none => .error .valueError
   | some m =>
